@@ -8,6 +8,11 @@ checks = {
    text="488 (quick) scenarios = every seed kind x every multiset of <=2 asset kinds x 2 worker/asset-concurrency configurations plus four colliding multi-seed sites x 3 configurations; for each, every schedule of reactor, stage workers, per-asset goroutines, WARC-write threads and the source sink with at most D deviations from the canonical scheduler (quick D=1 sweep / 2 depth, thorough D=2 / 3) is executed on the real code. Oracle per execution: each inserted seed finished exactly once; no node of the finished tree awaits work; every URL of an independent reference crawler's tree fetched with the reference attempt count and its fetch closed before the finish message; nothing else fetched; reactor empty; no panic, no deadlock.",
    note="Fake transport (immediate answers; WARC write = separate scheduled thread started at body close); seencheck against an in-memory fake crawl HQ; pkg/models, stats, domainscrawl points are not scheduling points; delay bounding explores all schedules within D deviations, not all schedules.",
    ref="4/C01"),
+ "C03": dict(level="model_checking", engine="explore",
+   technique="stateless model checking of the real stop sequence against the running real pipeline (fake transport) under the controlled scheduler: the stop request is a thread that every schedule within the delay bound places before any step of the run; configuration matrix enumerated",
+   text="Part A: 23 scenarios = seeds in flight {0,1,2} x workers {1,2} x rate limiter on/off x paused-for-good or not, plus proxy, async WARC, seencheck hq/local/off; every schedule with at most D deviations (quick 1, thorough 2) and all select outcomes; oracle: the stop sequence returns, every thread has exited, worker gauges are zero, no panic.",
+   note="Part A uses a fake transport and a fake WARC client: that WARC files are closed, renamed and consist of complete records is decided by the real-process part (E4) when present, not by part A. Source = harness sink + feeder.",
+   ref="4/C03"),
  "C05": dict(level="exploration", engine="grid",
    technique="exhaustive input-grid enumeration (URL text x tree position x all 32 filter configurations) through the real preprocess(), independent scope predicate as oracle",
    text="3.8 M (quick) / 25 M (thorough) cases: every URL text of the grammar product in seed, redirect-target and asset position under every on/off combination of the five filter kinds goes through the real preprocess(); every request that leaves the stage is judged by a predicate written from the property's words only.",
